@@ -39,6 +39,14 @@ func (g *Gen) smt(o *Obl) string {
 			mark(g.defs[i].Body)
 		}
 	}
+	if need["|strlen|"] {
+		// every string has a length between 0 and the address-space bound (DESIGN 8.3)
+		constFacts = append(constFacts, fmt.Sprintf("(forall ((s!l Int)) (! (and (<= 0 (|strlen| s!l)) (<= (|strlen| s!l) %s)) :pattern ((|strlen| s!l))))", maxLen))
+	}
+	if need["|declen|"] {
+		// the decimal representation of a 64-bit integer has between 1 and 20 characters
+		constFacts = append(constFacts, "(forall ((n!d Int)) (! (and (<= 1 (|declen| n!d)) (<= (|declen| n!d) 20)) :pattern ((|declen| n!d))))")
+	}
 	if need["|strlen|"] || need["|strbyte|"] {
 		var ids []string
 		for id := range g.constFacts {
@@ -197,25 +205,46 @@ func (g *Gen) discharge(o *Obl, timeoutS int, tmpdir string, confirm bool) {
 	f.Close()
 	defer os.Remove(f.Name())
 	ctx := context.Background()
-	first := runSolver(ctx, "z3-new", f.Name(), timeoutS)
-	best := first
-	if first.res != "unsat" && first.res != "sat" {
-		// race the other two
-		ch := make(chan solverRes, 2)
-		cctx, cancel := context.WithCancel(ctx)
-		for _, s := range []string{"z3", "cvc5"} {
-			go func(s string) { ch <- runSolver(cctx, s, f.Name(), timeoutS) }(s)
-		}
-		for i := 0; i < 2; i++ {
-			r := <-ch
+	// portfolio: z3-new gets a head start (most obligations take well under a second); if it has not
+	// answered by then, z3 4.8 and cvc5 join while it keeps running, and the first decisive answer
+	// (sat / unsat) wins. A slow query is decided by whichever solver is quick on it instead of
+	// waiting for the first solver's full time limit.
+	cctx, cancel := context.WithCancel(ctx)
+	ch := make(chan solverRes, 3)
+	t0 := time.Now()
+	go func() { ch <- runSolver(cctx, "z3-new", f.Name(), timeoutS) }()
+	var first solverRes
+	started, got := 1, 0
+	decided := false
+	headStart := time.After(2 * time.Second)
+	for !decided && (got < started || started == 1) {
+		select {
+		case r := <-ch:
+			got++
+			if got == 1 || r.res == "unsat" || r.res == "sat" {
+				first = r
+			}
 			if r.res == "unsat" || r.res == "sat" {
-				best = r
-				break
+				decided = true
+			} else if started == 1 {
+				started = 3
+				for _, sv := range []string{"z3", "cvc5"} {
+					go func(sv string) { ch <- runSolver(cctx, sv, f.Name(), timeoutS) }(sv)
+				}
+			}
+		case <-headStart:
+			if started == 1 {
+				started = 3
+				for _, sv := range []string{"z3", "cvc5"} {
+					go func(sv string) { ch <- runSolver(cctx, sv, f.Name(), timeoutS) }(sv)
+				}
 			}
 		}
-		cancel()
-		best.secs += first.secs
-	} else if confirm && first.res == want {
+	}
+	cancel()
+	first.secs = time.Since(t0).Seconds()
+	best := first
+	if confirm && first.res == want {
 		second := runSolver(ctx, "cvc5", f.Name(), timeoutS)
 		if second.res != want {
 			second = runSolver(ctx, "z3", f.Name(), timeoutS)
@@ -228,7 +257,7 @@ func (g *Gen) discharge(o *Obl, timeoutS int, tmpdir string, confirm bool) {
 		best.secs += second.secs
 	}
 	o.Result, o.Solver, o.Secs, o.Model = best.res, best.solver, best.secs, best.model
-	if d := os.Getenv("GOVC_DUMP"); d != "" && ((o.Cover && best.res != "sat") || (!o.Cover && best.res != "unsat")) {
+	if d := os.Getenv("GOVC_DUMP"); d != "" && (os.Getenv("GOVC_DUMP_ALL") != "" || (o.Cover && best.res != "sat") || (!o.Cover && best.res != "unsat")) {
 		os.MkdirAll(d, 0755)
 		os.WriteFile(d+"/"+sanitizeName(g.short+"_"+o.Name)+".smt2", []byte(script), 0644)
 	}
